@@ -17,8 +17,11 @@ MANIFEST = dict(
          'monitors and replayed through the model.',
     note='Trusted: Lean kernel; axioms propext/Classical.choice/Quot.sound; extractor; strace, the harness markers and the log parser; '
          'npdriver. Assumed: other goroutines close only their own descriptors; numbers 0-2 are never handed to netpoll; nothing-left '
-         'additionally assumes File()/SetNonblock do not fail inside ConvertListener and epoll_wait fails only with EINTR (witness '
-         'theorems show what is left otherwise). The connection-level protocol (C05) is not assumed: close callbacks may run any number '
+         'additionally assumes SetNonblock does not fail inside ConvertListener and epoll_wait fails only with EINTR (witness '
+         'theorems show what is left otherwise). File() failing inside ConvertListener (descriptor limit) is covered without assumption '
+         'since fix ea4a5ab (F1: CreateListener closes what net.Listen opened); the pollers a failing manager.Run had already opened are '
+         'closed by its error path since fix a1c21fb (F2; modelled and proved in C18, executed here under RLIMIT_NOFILE): both scenarios '
+         'must leave nothing open. The connection-level protocol (C05) is not assumed: close callbacks may run any number '
          'of times. Branches needing a failing setsockopt/epoll_ctl are covered by the model and the site tie, not by execution.',
     technique='Lean 4 invariant proof over an effect-monad model (weakest preconditions per Go function, global composition) '
               '+ syscall-level audit replayed through the model', design='§6 C15')
@@ -29,7 +32,7 @@ MIRRORED = ('netFD.Close', 'listener.Close', 'listener.Accept', 'listener.parseF
             'connection.initFinalizer', 'connection.Detach', 'connection.register', 'connection.onPrepare', 'NewFDConnection',
             'server.Close', 'server.onAccept', 'newNetFD')
 EXPECTED_FP = os.path.join(common.VERIF, 'lib', 'expected_fp_c15.json')
-PROBES = {'rlimit-create-listener': ('F1', 1), 'rlimit-manager-run': ('F2', 2)}   # scenario -> (known finding it exhibits, descriptors left)
+PROBES = {}   # scenario -> (id of the known finding it exhibits, descriptors left); none at present (F1, F2 are fixed: a leak there is a violation)
 
 def fingerprint_changes():
     exp = json.load(open(EXPECTED_FP)) if os.path.exists(EXPECTED_FP) else {}
@@ -190,7 +193,7 @@ def run(rep, prop=PROP):
     rep.cov['traces_validated_against_impl'] = sum(1 for sc, b, v in final if v['conform'] == 'ok')
     rep.assumptions += ['A-env: other goroutines close only descriptors they own (the adversary of the model)',
                         'A-stdio: descriptors 0-2 stay open and are never handed to netpoll (netFD.Close skips fd <= 2)',
-                        'A-listener-dup: File()/SetNonblock do not fail inside ConvertListener (else the wrapped listener / duplicate is left to the GC finalizers; finding F1)',
+                        'A-listener-dup: SetNonblock does not fail inside ConvertListener after the duplicate was made (else the duplicate is left to the GC finalizer; File() failing is covered, see fix of F1)',
                         'A-epoll-wait: epoll_wait on a valid epoll descriptor fails only with EINTR (else Wait returns with both descriptors open)',
                         'C05 not assumed: close callbacks may run any number of times, Detach may write its flag at any moment',
                         'attribution: every open/close not announced by the harness on the marker descriptor is netpoll\'s']
@@ -262,12 +265,21 @@ def replay(rep, path):
     lines = [l for l in open(path).read().split('\n') if l]
     head = [l for l in lines if l.startswith('scenario ')]
     ops = [l for l in lines if not l.startswith('#') and not l.startswith('scenario ')]
+    expect = [l[len('#expect '):].strip() for l in lines if l.startswith('#expect ')]
     bad = False
     if ops:
         got = fdrun.judge([ops])[0]
         print('REPLAY recorded events: ' + got['line'][:500])
         rep.cov['evaluations'] += 1
-        if got['owned'] != 'ok' or got['once'] != 'ok' or got['left'] != '-':
+        if expect:
+            # a corpus file: the recorded sequence (e.g. of a tree before a fix) must get the recorded verdict
+            for e in expect:
+                k, val = e.split('=', 1)
+                if (got[k] == val[1:]) if val.startswith('!') else (got[k] != val):
+                    bad = True
+                    rep.violation('recorded event sequence no longer gets the verdict %s: %s' % (e, got['line'][:300]), lines, no_input=True)
+                    break
+        elif got['owned'] != 'ok' or got['once'] != 'ok' or got['left'] != '-':
             bad = True
             rep.violation('recorded event sequence violates the specification: ' + got['line'][:300], lines)
         elif got['conform'] != 'ok':
